@@ -161,6 +161,14 @@ func smtString(s string) string {
 	return sb.String()
 }
 
+// ufSym quotes an uninterpreted function name that is not a simple symbol.
+func ufSym(n string) string {
+	if strings.ContainsAny(n, "#@ ()[]{}\"'`,;") {
+		return quoteSym(n)
+	}
+	return n
+}
+
 func quoteSym(n string) string {
 	return "|" + strings.NewReplacer("|", "_", "\\", "_").Replace(n) + "|"
 }
@@ -227,7 +235,7 @@ func (p *printer) str(t *T) string {
 	var sb strings.Builder
 	head := t.Op
 	if t.Op == "uf" {
-		head = t.Name
+		head = ufSym(t.Name)
 	}
 	if t.Op == "str.in_re" {
 		sb.WriteString("(str.in_re " + p.str(t.Args[0]) + " " + t.Name + ")")
